@@ -520,8 +520,8 @@ func (e *Engine) VirtualizationUpdateResource(ctx context.Context, ID string, en
 	numaNode := resourceOpts.NUMANode
 	// a workload without cpu binding keeps its cpu quota, the cores filled in below only stand for "any core"
 	unbound := len(cpuMap) == 0
-	// unlimited cpu
-	if quota == 0 || len(cpuMap) == 0 {
+	// a workload that is bound to cores stays on them (and on its numa node), whatever its cpu limit is
+	if unbound {
 		info, err := e.Info(ctx) // TODO can fixed in docker engine, support empty Cpusetcpus, or use cache to speed up
 		if err != nil {
 			return err
@@ -530,8 +530,11 @@ func (e *Engine) VirtualizationUpdateResource(ctx context.Context, ID string, en
 		for i := 0; i < info.NCPU; i++ {
 			cpuMap[strconv.Itoa(i)] = int64(e.config.Scheduler.ShareBase)
 		}
-		if quota == 0 {
-			quota = -1
+	}
+	// unlimited cpu
+	if quota == 0 {
+		quota = -1
+		if unbound {
 			numaNode = ""
 		}
 	}
